@@ -4,7 +4,7 @@
    Consumers receive LABELS: each label stands for the serialised bytes of one
    published message (or TS blob); the byte-level meaning is [label_bytes] in
    GroupFanoutBytes.v.  No proofs here. *)
-From Lal Require Import Common.LBytes Group.GroupMsg Group.GroupGopCache.
+From Lal Require Import Common.LBytes Rtmp.RtmpMetadata Group.GroupMsg Group.GroupGopCache.
 Open Scope N_scope.
 
 Inductive label :=
